@@ -60,6 +60,9 @@ def FUNC(fam, q_small, t_small, q_host=None, t_host=None, q_ts=None, t_ts=None, 
     # 8 words are left behind; the scalar (no-SSE2) variants of those loops get their own stage
     st.append(S("small-asan", "func", ["--fam", fam, "--wide", "1"], (max(240, q_small[0] // 24), 1100), (t_small[0] // 24, 1400)))
     st.append(S("small-nosse-ts-asan", "func", ["--fam", fam, "--wide", "1"], (max(120, q_small[0] // 48), 1100), (t_small[0] // 48, 1400)))
+    # cache triple whose derived constants are not multiples of 64 (MUL_BLOCKSIZE 313): shapes of more than two such blocks
+    st.append(S("odd-asan", "func", ["--fam", fam], (max(300, q_small[0] // 10), 700), (t_small[0] // 10, 1300)))
+    st.append(S("odd-asan", "func", ["--fam", fam, "--wide", "1"], (max(150, q_small[0] // 40), 1100), (t_small[0] // 40, 1400)))
     # assertions compiled in (--enable-debug), third cache triple: the library's own assert()s act as additional monitors
     st.append(S("mid-debug-asan", "func", ["--fam", fam], (max(300, q_small[0] // 8), max(q_small[1], 400)), (t_small[0] // 8, t_small[1])))
     st.append(S("mid-debug-asan", "func", ["--fam", fam, "--policy", "win", "--wide", "1"], (max(150, q_small[0] // 40), 1100), (t_small[0] // 40, 1400)))
@@ -249,14 +252,14 @@ PROPS["C12"] = dict(
                          "cache triples sampled: 4K:32K:64K, 6K:48K:96K (derived constants not powers of two), 16K:256K:1M, 32K:1280K:54M",
                          "two compilers / optimisation levels (gcc -O1/-O2/-O3, clang-14 -O2) are part of the build matrix so that code whose result depends on undefined behaviour shows up as a digest mismatch"],
     stages=lambda tier: [
-        _c12("small-asan", (2500, 420), (12000, 1200)),
-        _c12("host-asan", (2500, 420), (12000, 1200)),
-        _c12("small-nosse-ts-asan", (2500, 420), (12000, 1200)),
-        _c12("host-gomp-asan", (2500, 420), (12000, 1200), env={"OMP_NUM_THREADS": "4"}),
-        _c12("odd-asan", (2500, 420), (12000, 1200)),
-        _c12("small-gomp-asan", (2500, 420), (12000, 1200), env={"OMP_NUM_THREADS": "3"}, workers=8),
-        _c12("small-O3-plain", (2500, 420), (12000, 1200)),
-        _c12("host-clang-asan", (2500, 420), (12000, 1200)),
+        _c12("small-asan", (2500, 700), (12000, 1200)),
+        _c12("host-asan", (2500, 700), (12000, 1200)),
+        _c12("small-nosse-ts-asan", (2500, 700), (12000, 1200)),
+        _c12("host-gomp-asan", (2500, 700), (12000, 1200), env={"OMP_NUM_THREADS": "4"}),
+        _c12("odd-asan", (2500, 700), (12000, 1200)),
+        _c12("small-gomp-asan", (2500, 700), (12000, 1200), env={"OMP_NUM_THREADS": "3"}, workers=8),
+        _c12("small-O3-plain", (2500, 700), (12000, 1200)),
+        _c12("host-clang-asan", (2500, 700), (12000, 1200)),
     ] + ([
         _c12("mid-debug-asan", (0, 420), (12000, 1200)),
         _c12("host-nosse-plain", (0, 420), (12000, 1200)),
